@@ -199,6 +199,8 @@ fn server_bases(tier: Tier) -> Vec<SCfg> {
                             reuse_after_end: false,
                             dup_deadline_ms: 10_000,
                             via_serde: false,
+                            start_age_ms: 0,
+                            limit_via_incoming: false,
                         });
                     }
                 }
